@@ -194,7 +194,7 @@ func (r *vfC02SampledRun) run() {
 			}
 			var n int
 			var err error
-			vfc02.Guard("wrappedSampledConn.Read", func() { n, err = sc.Read(buf[:b]) })
+			vfc02.Guard("wrappedSampledConn.Read", func() { n, err = sc.Read(buf[:b:b]) })
 			r.log = append(r.log, map[string]any{"op": "read", "from": from, "rel": rel, "real": b, "avail": avail, "n": n, "err": fmt.Sprint(err)})
 			r.res.Case(fmt.Sprintf("read/%s/%s/%v", from, rel, op.B("eof")))
 			if errors.Is(err, vfc02.ErrDry) {
